@@ -123,6 +123,8 @@ class Ref:
         ng = as_bool(s.get('nameguard'))
         if ng is None:
             ng = bool(self.ws) or bool(self.namechars)
+        if self.namechars:
+            ng = True   # docs/config.rst: nameguard is "implied by namechars"
         self.nameguard = ng
         self.ignorecase = as_bool(s.get('ignorecase'), False)
         c = s.get('comments')
